@@ -1207,6 +1207,17 @@ def check_C14(ctx):
 
 def check_C16(ctx):
     q = ctx.tier == "quick"
+    allh = {"setup": True, "teardown": True, "nsetup": True, "nteardown": True}
+    nodeh = {"setup": False, "teardown": False, "nsetup": True, "nteardown": True}
+    subh = {"setup": True, "teardown": True, "nsetup": False, "nteardown": False}
+    # JadeImpl with the lifecycle commands as actions (Teardown between Summary and MarkComplete; NodeSetup / NodeTeardown
+    # around the node's queue): every interleaving, monitor clauses as invariants, behaviours replayed into the code
+    ctx.impl_model("JadeImpl with lifecycle commands",
+                   [families.scn("AB", groups=[families.G(size=1, procs=1)], maxnodes=0, hooks=allh),
+                    families.scn("ABC", blk={"C": ["A"]}, rc={"B": 1}, groups=[families.G(size=2, procs=2)], maxnodes=1, hooks=allh),
+                    families.scn("AB", blk={"B": ["A"]}, flag="B", rc={"A": 1}, groups=[families.G(size=1, procs=1)], maxnodes=1, hooks=nodeh),
+                    families.scn("AB", groups=[families.G(size=2, procs=1)], maxnodes=1, hooks=subh)],
+                   maxb=3, maxuser=3, max_replay=200 if q else 1500)
     tasks = []
     n = 3 if q else 30
     for combo in range(16):
@@ -1215,7 +1226,8 @@ def check_C16(ctx):
                 tasks.append(("hooks", (ctx.seed * 1000 + combo * 64 + k * 2 + int(local), combo, local,
                                         True if k % 3 == 1 else ("node" if k % 3 == 2 else False))))
     ctx.judge(run_tasks(tasks), "all 16 set/unset combinations of the four lifecycle commands, local and HPC mode, random DAGs")
-    return ctx.finish(rule="16 combinations of setup/teardown/node-setup/node-teardown commands x {local, HPC} x random DAGs (2-5 jobs, "
+    return ctx.finish(rule="JadeImpl with the four commands as actions explored on 4 small scenarios and replayed into the code; "
+                           "16 combinations of setup/teardown/node-setup/node-teardown commands x {local, HPC} x random DAGs (2-5 jobs, "
                            "passing and failing jobs, failing teardown command in a third of the runs, failing node teardown command in "
                            "another third) x random schedules; hook "
                            "commands are served by the controller and recorded with their environment")
